@@ -25,6 +25,9 @@ F_mapk = z3.Function("F_mapk", IntS, StrS)
 F_mapv = z3.Function("F_mapv", IntS, StrS)
 F_dkind = z3.Function("F_dkind", IntS, StrS)      # kind of the default generator: list dict none message datetime timedelta float str bytes int
 DEFOBJ = z3.Function("DEFOBJ", IntS, PyObj)       # the materialised default of field i
+F_ckind = z3.Function("F_ckind", IntS, StrS)      # class kind of the field's element type: datetime timedelta message enum other
+ENTRY_KEY = z3.Function("ENTRY_KEY", PyObj, PyObj)
+ENTRY_VAL = z3.Function("ENTRY_VAL", PyObj, PyObj)
 IDX_OF_NUMBER = z3.Function("IDX_OF_NUMBER", IntS, IntS)   # field index for a wire number, -1 if unknown
 NF = z3.Int("NF")
 MSG_SOW = z3.Function("MSG_SOW", PyObj, BoolS)    # value._serialized_on_wire of a nested message value
@@ -53,7 +56,8 @@ class MsgPlugin:
     SPEC_NAMES = {"NF", "F_number", "F_ptype", "F_group", "F_wraps", "F_optional", "F_dkind", "F_mapk", "F_mapv",
                   "VAL", "RAWV", "SEL", "INGROUP", "READABLE", "WIREUPTO", "WIRE", "EMIT_AT", "WF", "TY", "GCV",
                   "HEAP_LIST", "HEAP_DK", "HEAP_DV", "CN", "XS", "KS", "VS", "SOWV", "FNAME_IDX", "RAWARR", "GCARR",
-                  "TY_AT", "WF_AT"}
+                  "TY_AT", "WF_AT", "F_ckind", "IDXN", "SELECT", "DEFOBJ", "UNKF", "SOWF", "GROUP_RESET", "DICTSET_K",
+                  "DICTSET_V", "ENTRY_KEY", "ENTRY_VAL", "F_name", "VALOF", "SHAPE", "STRUCT"}
 
     SPEC_CONSTS = {"NF"}
 
@@ -66,6 +70,19 @@ class MsgPlugin:
                 st.heap[("$H", "list")].t, st.heap[("$H", "dk")].t, st.heap[("$H", "dv")].t)
 
     def make_model_param(self, ex, st, p, model):
+        if model == "fname":
+            v = z3.Int(f"{p}.idx")
+            ex.inputs[f"{p}.idx"] = v
+            return SV("fname", v)
+        if model == "meta":
+            comps = {"number": sv_int(z3.Int(f"{p}.number")), "proto_type": sv_str(z3.String(f"{p}.proto_type")),
+                     "group": SV("obj", z3.Const(f"{p}.group", PyObj)), "wraps": SV("obj", z3.Const(f"{p}.wraps", PyObj)),
+                     "optional": sv_bool(z3.Bool(f"{p}.optional"))}
+            for k, v in comps.items():
+                ex.inputs[f"{p}.{k}"] = v.t
+            st.assume(z3.Or(PyObj.is_PNone(comps["wraps"].t), PyObj.is_PStr(comps["wraps"].t)))
+            st.assume(z3.Or(PyObj.is_PNone(comps["group"].t), PyObj.is_PStr(comps["group"].t)))
+            return SV("rec", comps, "FieldMetadata")
         if model != "msg":
             return None
         key = p
@@ -145,6 +162,16 @@ class MsgPlugin:
                                    dk == scalar_dk))),
             # the materialised default is a default
             DEFOBJ(i) != PyObj.PPlaceholder,
+            z3.Or(F_ckind(i) == S("datetime"), F_ckind(i) == S("timedelta"), F_ckind(i) == S("message"),
+                  F_ckind(i) == S("enum"), F_ckind(i) == S("other")),
+            (t == S("enum")) == (F_ckind(i) == S("enum")),
+            # members of a oneof group are singular fields
+            z3.Implies(F_group(i) != S(""), z3.And(dk != S("list"), dk != S("dict"))),
+            z3.Implies(dk == S("datetime"), F_ckind(i) == S("datetime")),
+            z3.Implies(dk == S("timedelta"), F_ckind(i) == S("timedelta")),
+            z3.Implies(dk == S("message"), F_ckind(i) == S("message")),
+            z3.Implies(z3.Or(F_ckind(i) == S("datetime"), F_ckind(i) == S("timedelta"), F_ckind(i) == S("message")),
+                       z3.And(t == S("message"), F_wraps(i) == S(""))),
         )
         return per
 
@@ -165,6 +192,32 @@ class MsgPlugin:
         return z3.ForAll([i], z3.Implies(z3.And(0 <= i, i < NF),
                                          z3.And(isdef, z3.Implies(PyObj.is_PMsg(v), z3.Not(MSG_SOW(v))))))
 
+    def group_reset(self, raw, i, v, st=None):
+        """raw[i := v] with every other member of i's oneof group reset to PLACEHOLDER.  Returned as a fresh
+        array constant defined by a universally quantified equation (first-order, so both back ends read it)."""
+        j = z3.Int("j!gr")
+        g = F_group(i)
+        new = fresh("raw_set", RAW_S)
+        body = new[j] == z3.If(j == i, v, z3.If(z3.And(g != z3.StringVal(""), F_group(j) == g, 0 <= j, j < NF),
+                                                PyObj.PPlaceholder, raw[j]))
+        defn = z3.ForAll([j], body, patterns=[new[j]])
+        if st is not None:
+            st.assume(defn)
+            st.assume(new[i] == v)
+        return new
+
+    def model_setattr(self, ex, st, selfv, i, v):
+        """contract of Message.__setattr__ for a field (DESIGN A.5): sow' = True; if the field is a oneof member it
+        becomes the selected one and every sibling is reset to PLACEHOLDER; raw'[i] = v; nothing else changes."""
+        ex.assumption("C-SETATTR")
+        raw, gc, hl, hdk, hdv = self.cells(st, selfv.t)
+        st2 = st.clone()
+        st2.heap[(selfv.t, "_serialized_on_wire")] = sv_bool(True)
+        ingroup = F_group(i) != z3.StringVal("")
+        st2.heap[(selfv.t, "gc")] = SV("arr", z3.If(ingroup, z3.Store(gc, F_group(i), i), gc))
+        st2.heap[(selfv.t, "raw")] = SV("arr", self.group_reset(raw, i, v, st2))
+        return st2
+
     # ---------------------------------------------------------------- spec-language names
     def spec_has(self, name):
         return name in self.SPEC_NAMES
@@ -180,6 +233,45 @@ class MsgPlugin:
             f, mk = simple[name]
             return mk(f(ex.as_int(pos[0], st)))
         raw, gc, hl, hdk, hdv = self.cells(st, key)
+        if name == "F_ckind":
+            return sv_str(F_ckind(ex.as_int(pos[0], st)))
+        if name == "IDXN":
+            return sv_int(IDX_OF_NUMBER(ex.as_int(pos[0], st)))
+        if name == "SELECT":
+            a = pos[0]
+            if a.t.sort() == GC_S:
+                return sv_int(a.t[pos[1].t])
+            r = a.t[ex.as_int(pos[1], st)]
+            return SV("objseq" if a.t.sort() == HEAP_S else "obj", r)
+        if name == "DEFOBJ":
+            return SV("obj", DEFOBJ(ex.as_int(pos[0], st)))
+        if name == "VALOF":
+            return SV("obj", val_of(pos[0].t, ex.as_int(pos[1], st)))
+        if name == "STRUCT":
+            # container-kind consistency: a repeated field holds a list, a map field a dict, others neither
+            a = z3.Int("a!st")
+            va = val_of(raw, a)
+            return sv_bool(z3.ForAll([a], z3.Implies(z3.And(0 <= a, a < NF), z3.And(
+                (F_dkind(a) == z3.StringVal("list")) == PyObj.is_PList(va),
+                (F_dkind(a) == z3.StringVal("dict")) == PyObj.is_PDict(va)))))
+        if name == "SHAPE":
+            # containers of different fields are different objects (the value graph is a tree)
+            a, b = z3.Int("a!sh"), z3.Int("b!sh")
+            va, vb = val_of(raw, a), val_of(raw, b)
+            return sv_bool(z3.ForAll([a, b], z3.Implies(z3.And(0 <= a, a < NF, 0 <= b, b < NF, a != b), z3.And(
+                z3.Implies(z3.And(PyObj.is_PList(va), PyObj.is_PList(vb)), PyObj.plist(va) != PyObj.plist(vb)),
+                z3.Implies(z3.And(PyObj.is_PDict(va), PyObj.is_PDict(vb)), PyObj.pdict(va) != PyObj.pdict(vb))))))
+        if name == "ENTRY_KEY":
+            return SV("obj", ENTRY_KEY(to_obj(pos[0])))
+        if name == "ENTRY_VAL":
+            return SV("obj", ENTRY_VAL(to_obj(pos[0])))
+        if name == "UNKF":
+            return st.heap[(key, "_unknown_fields")]
+        if name == "SOWF":
+            return st.heap[(key, "_serialized_on_wire")]
+        if name == "GROUP_RESET":
+            # GROUP_RESET(raw_before, i, v): the raw array after assigning v to field i (siblings of its group reset)
+            raise Unsupported("GROUP_RESET in spec expressions")
         if name == "VAL":
             return SV("obj", val_of(raw, ex.as_int(pos[0], st)))
         if name == "RAWV":
@@ -252,6 +344,15 @@ class MsgPlugin:
         return [(st, SV("func", ("method", v, attr)))]
 
     def attr_hook(self, ex, st, v, attr):
+        if v.kind == "func" and v.t[0] == "fieldcls":
+            return [(st, SV("func", ("method", v, attr)))]
+        if v.kind in ("fieldmsg", "wkmsg", "wkparsed") and not (v.kind == "wkparsed" and attr == "value"):
+            return [(st, SV("func", ("method", v, attr)))]
+        if v.kind == "wkparsed" and attr == "value":
+            kind, b = v.t
+            ex.assumption("C-SUBPARSE")
+            w = ex.coerce(kind[1], "str", st, "wraps")
+            return [(st, ex.eng.spec.call(ex, "WRAPPARSE", [w, sv_bytes(b)], st))]
         if v.kind == "bp":
             if attr in ("meta_by_field_name", "default_gen", "cls_by_field", "field_name_by_number",
                         "oneof_group_by_field", "oneof_field_by_group", "sorted_field_names"):
@@ -267,6 +368,76 @@ class MsgPlugin:
     def value_attr_hook(self, ex, st, v, attr):
         if v.kind == "obj" and attr == "_serialized_on_wire":
             return [(st, sv_bool(MSG_SOW(v.t)))]
+        if v.kind == "obj" and attr == "key":
+            return [(st, SV("obj", ENTRY_KEY(v.t)))]
+        if v.kind == "obj" and attr == "value":
+            return [(st, SV("obj", ENTRY_VAL(v.t)))]
+        return None
+
+    def setattr_other(self, ex, st, recv, attr, v):
+        if recv.kind == "obj" and attr == "_serialized_on_wire":
+            # only ever set to True on a freshly parsed nested message, which already reports it
+            ex.oblige(st, f"nested-presence-flag@{ex.cur_line}", z3.And(ex.truth(v), MSG_SOW(recv.t)), "safety")
+            return True
+        return None
+
+    def setattr_hook(self, ex, st, recv, attr, v):
+        if recv.extra != "msg":
+            return None
+        if attr in ("_unknown_fields", "_serialized_on_wire"):
+            # Message.__setattr__ for a non-field attribute: stores it; any attribute but the flag itself sets the flag
+            st.heap[(recv.t, attr)] = v
+            if attr != "_serialized_on_wire":
+                st.heap[(recv.t, "_serialized_on_wire")] = sv_bool(True)
+            return True
+        return None
+
+    def list_literal(self, ex, st):
+        raw, gc, hl, hdk, hdv = self.cells(st)
+        r = fresh("newlist", IntS)
+        st2 = st.clone()
+        st2.heap[("$H", "list")] = SV("arr", z3.Store(hl, r, z3.Empty(OBJSEQ)))
+        j = z3.Int("j!fr")
+        # freshness: the new list is no field's list and no field default
+        st2.assume(z3.ForAll([j], z3.And(z3.Implies(PyObj.is_PList(raw[j]), PyObj.plist(raw[j]) != r),
+                                         z3.Implies(PyObj.is_PList(DEFOBJ(j)), PyObj.plist(DEFOBJ(j)) != r))))
+        return [(st2, SV("obj", PyObj.PList(r)))]
+
+    def set_item(self, ex, st, recv, key, v):
+        if recv.kind != "obj":
+            return None
+        raw, gc, hl, hdk, hdv = self.cells(st)
+        ex.oblige(st, f"type[item assignment target is a dict]@{ex.cur_line}", PyObj.is_PDict(recv.t), "safety")
+        r = PyObj.pdict(recv.t)
+        ks, vs = hdk[r], hdv[r]
+        ko, vo = to_obj(key), to_obj(v)
+        idx = z3.IndexOf(ks, z3.Unit(ko), 0)
+        n = z3.Length(ks)
+        nks = z3.If(idx >= 0, ks, z3.Concat(ks, z3.Unit(ko)))
+        nvs = z3.If(idx >= 0, z3.Concat(z3.SubSeq(vs, 0, idx), z3.Unit(vo), z3.SubSeq(vs, idx + 1, n - idx - 1)),
+                    z3.Concat(vs, z3.Unit(vo)))
+        st.heap[("$H", "dk")] = SV("arr", z3.Store(hdk, r, nks))
+        st.heap[("$H", "dv")] = SV("arr", z3.Store(hdv, r, nvs))
+        return True
+
+    def identical_hook(self, ex, a, b, st):
+        for x, y in ((a, b), (b, a)):
+            if x.kind == "defgen" and y.kind == "func" and y.t == ("builtin", "list"):
+                return F_dkind(x.t) == z3.StringVal("list")
+        return None
+
+    def call_other(self, ex, tag, pos, kw, st, node):
+        if tag[0] == "fieldcls" and not pos and not kw:
+            return [(st, SV("fieldmsg", tag[1]))]
+        if tag[0] == "wrapper_cls" and not pos and not kw:
+            return [(st, SV("wkmsg", ("wrap", tag[1])))]
+        return None
+
+    def call_class(self, ex, tag, pos, kw, st, node):
+        if tag[0] == "class" and tag[1].endswith("._Timestamp") and not pos and not kw:
+            return [(st, SV("wkmsg", ("ts", None)))]
+        if tag[0] == "class" and tag[1].endswith("._Duration") and not pos and not kw:
+            return [(st, SV("wkmsg", ("dur", None)))]
         return None
 
     def truth_hook(self, ex, v):
@@ -289,6 +460,12 @@ class MsgPlugin:
             if c not in (0, 1):
                 raise Unsupported("map_types index")
             return [(st, sv_str((F_mapk if c == 0 else F_mapv)(seq.t)))]
+        if seq.kind == "bpattr" and seq.t[1] == "default_gen" and idx.kind == "fname":
+            ex.oblige(st, f"key-present@{ex.cur_line}", z3.And(idx.t >= 0, idx.t < NF), "safety")
+            return [(st, SV("defgen", idx.t))]
+        if seq.kind == "bpattr" and seq.t[1] == "cls_by_field" and idx.kind == "fname":
+            ex.oblige(st, f"key-present@{ex.cur_line}", z3.And(idx.t >= 0, idx.t < NF), "safety")
+            return [(st, SV("func", ("fieldcls", idx.t)))]
         if seq.kind == "bpattr" and seq.t[1] == "meta_by_field_name" and idx.kind == "fname":
             ex.oblige(st, f"key-present@{ex.cur_line}", z3.And(idx.t >= 0, idx.t < NF), "safety")
             return [(st, self.metarec(idx.t))]
@@ -313,6 +490,59 @@ class MsgPlugin:
     def call_method(self, ex, recv, name, pos, kw, st, node):
         if recv.kind == "bpattr" and recv.t[1] == "meta_by_field_name" and name == "items":
             return [(st, SV("iter_fields", recv.t[0]))]
+        if recv.kind == "bpattr" and recv.t[1] == "field_name_by_number" and name == "get":
+            n = ex.as_int(pos[0], st)
+            return [(st, SV("fname", IDX_OF_NUMBER(n)))]
+        if recv.kind == "func" and recv.t[0] == "fieldcls" and name == "try_value":
+            # contract of Enum.try_value (enum area): an instance of the field's enum class whose int value is the argument
+            ex.assumption("C-TRYVALUE")
+            return [(st, SV("obj", PyObj.PEnum(recv.t[1], ex.as_int(pos[0], st))))]
+        if recv.kind == "fieldmsg" and name == "parse":
+            i = recv.t
+            b = ex.as_bytes(pos[0], st)
+            spec = ex.eng.spec
+            ex.assumption("C-SUBPARSE")
+            m = spec.call(ex, "MSGPARSE", [sv_int(i), sv_bytes(b)], st).t
+            e = spec.call(ex, "ENTRYPARSE", [sv_int(i), sv_bytes(b)], st).t
+            r = z3.If(F_ptype(i) == z3.StringVal("map"), e, m)
+            st2 = st.clone()
+            st2.assume(z3.Implies(F_ptype(i) != z3.StringVal("map"), z3.And(PyObj.is_PMsg(m), MSG_SOW(m))))
+            out = [(st2, SV("obj", r))]
+            for exc in ("ValueError", "EOFError", "UnicodeDecodeError", "StructError"):
+                out.append((st, Raised(SV("exc", exc))))
+            return out
+        if recv.kind == "wkmsg" and name == "parse":
+            b = ex.as_bytes(pos[0], st)
+            out = [(st, SV("wkparsed", (recv.t, b)))]
+            for exc in ("ValueError", "EOFError", "UnicodeDecodeError", "StructError"):
+                out.append((st, Raised(SV("exc", exc))))
+            return out
+        if recv.kind == "wkparsed" and name in ("to_datetime", "to_timedelta"):
+            kind, b = recv.t
+            spec = ex.eng.spec
+            ex.assumption("C-SUBPARSE")
+            if name == "to_datetime":
+                r = spec.call(ex, "TSPARSE", [sv_bytes(b)], st).t
+                fact = PyObj.is_PDatetime(r)
+            else:
+                r = spec.call(ex, "DURPARSE", [sv_bytes(b)], st).t
+                fact = PyObj.is_PTimedelta(r)
+            st2 = st.clone()
+            st2.assume(fact)
+            return [(st2, SV("obj", r)), (st, Raised(SV("exc", "OverflowError")))]
+        if recv.kind == "obj" and name in ("append", "extend"):
+            raw, gc, hl, hdk, hdv = self.cells(st)
+            ex.oblige(st, f"type[.{name}() receiver is a list]@{ex.cur_line}", PyObj.is_PList(recv.t), "safety")
+            r = PyObj.plist(recv.t)
+            if name == "append":
+                add = z3.Unit(to_obj(pos[0]))
+            else:
+                a = to_obj(pos[0])
+                ex.oblige(st, f"type[.extend() argument is a list]@{ex.cur_line}", PyObj.is_PList(a), "safety")
+                add = hl[PyObj.plist(a)]
+            st2 = st.clone()
+            st2.heap[("$H", "list")] = SV("arr", z3.Store(hl, r, z3.Concat(hl[r], add)))
+            return [(st2, NONE)]
         if recv.kind == "gcdict" and name == "get":
             g = pos[0]
             raw, gc, hl, hdk, hdv = self.cells(st, recv.t)
@@ -324,7 +554,7 @@ class MsgPlugin:
         if recv.kind == "ref" and recv.extra == "msg":
             if name == "_get_field_default":
                 fn = pos[0] if pos else kw["field_name"]
-                return [(st, SV("defaultof", fn.t))]
+                return [(st, SV("obj", DEFOBJ(fn.t), ("defaultof", fn.t)))]
             q = f"betterproto.Message.{name}"
             if q in ex.eng.contracts:
                 return list(ex.call_repo(q, pos, kw, st, node, recv=recv))
@@ -334,6 +564,8 @@ class MsgPlugin:
     def call_builtin(self, ex, name, pos, kw, st, node):
         if name == "getattr" and len(pos) == 2 and pos[0].kind == "ref" and pos[0].extra == "msg" and pos[1].kind == "fname":
             return self.model_getattr(ex, st, pos[0], pos[1].t)
+        if name == "setattr" and len(pos) == 3 and pos[0].kind == "ref" and pos[0].extra == "msg" and pos[1].kind == "fname":
+            return [(self.model_setattr(ex, st, pos[0], pos[1].t, to_obj(pos[2])), NONE)]
         if name == "len" and pos and pos[0].kind == "ref" and pos[0].extra == "msg":
             return list(ex.call_repo("betterproto.Message.__len__", [], {}, st, node, recv=pos[0]))
         if name == "bytes" and pos and pos[0].kind == "ref" and pos[0].extra == "msg":
@@ -362,11 +594,16 @@ class MsgPlugin:
     def compare_hook(self, ex, op, a, b, st):
         if isinstance(op, (ast.Eq, ast.NotEq)):
             r = None
-            if a.kind == "defaultof" or b.kind == "defaultof":
-                d, v = (a, b) if a.kind == "defaultof" else (b, a)
+            isd = lambda x: x.kind == "obj" and isinstance(x.extra, tuple) and x.extra[0] == "defaultof"
+            if isd(a) or isd(b):
+                d, v = (a, b) if isd(a) else (b, a)
                 raw, gc, hl, hdk, hdv = self.cells(st)
                 vo = to_obj(v)
-                r = ex.eng.spec.call(ex, "ISDEF", [sv_str(F_dkind(d.t)), SV("obj", vo), sv_int(cn_of(hl, hdk, vo))], st).t
+                r = ex.eng.spec.call(ex, "ISDEF", [sv_str(F_dkind(d.extra[1])), SV("obj", vo), sv_int(cn_of(hl, hdk, vo))], st).t
+            elif (a.kind == "func" and a.t[0] == "fieldcls") or (b.kind == "func" and b.t[0] == "fieldcls"):
+                c, o = (a, b) if (a.kind == "func" and a.t[0] == "fieldcls") else (b, a)
+                if o.kind == "func" and o.t[0] == "builtin" and o.t[1].split(".")[-1] in ("datetime", "timedelta"):
+                    r = F_ckind(c.t[1]) == z3.StringVal(o.t[1].split(".")[-1])
             elif a.kind == "fname" and b.kind == "fname":
                 r = a.t == b.t
             elif a.kind == "fname" and b.kind == "none" or b.kind == "fname" and a.kind == "none":
